@@ -4,6 +4,7 @@ package main
 
 import (
 	"encoding/hex"
+	"fmt"
 	"go/ast"
 	"go/parser"
 	"go/token"
@@ -13,6 +14,8 @@ import (
 	"strconv"
 	"strings"
 	"sync"
+
+	"github.com/gopacket/gopacket"
 )
 
 var (
@@ -126,4 +129,71 @@ func lsTCPPayloads(port int) [][]byte {
 		}
 	}
 	return out
+}
+
+// lsDecfCfg: the registered decoder of a layer type run on a recording PacketBuilder (op decf:<hex>); obs:
+//   cls=..;tr=..;added=N;<fields of the added layer, or of a zero layer>;c=..;p=..;next=none|<id>
+type lsDecfCfg struct {
+	d    *lmDesc
+	lt   gopacket.LayerType
+	conv func(gopacket.Layer) gopacket.Layer         // the added layer as the pointer type d.fields expects (nil = as it is)
+	next func(l gopacket.Layer, b *lmBuilder) string // name of the decoder handed to NextDecoder
+}
+
+func lsHasDecf(c Case) bool {
+	for _, op := range c.Ops {
+		if name, _ := lnOp(op); name == "decf" {
+			return true
+		}
+	}
+	return false
+}
+
+func lsRunDecf(g lsDecfCfg, c Case) (res Result) {
+	d := g.d
+	for _, op := range c.Ops {
+		name, a := lnOp(op)
+		switch name {
+		case "tag":
+			res.Tags = append(res.Tags, a[0])
+		case "G":
+		case "decf":
+			data := lnCopy(lnUnhex(a[0]))
+			b := &lmBuilder{}
+			cls := lnClass(func() error { return g.lt.Decode(data, b) })
+			l := d.fresh()
+			if len(b.layers) > 0 {
+				l = b.layers[0]
+				if g.conv != nil {
+					l = g.conv(l)
+				}
+			}
+			cc, pp := lmBase(l)
+			nx := "none"
+			if b.nextSet {
+				nx = g.next(l, b)
+			}
+			res.Obs = append(res.Obs, fmt.Sprintf("cls=%s;tr=%s;added=%d;%s;c=%s;p=%s;next=%s", cls, lnB(b.tr), len(b.layers), d.fields(l), lnHex(cc), lnHex(pp), nx))
+			if cls == "panic" {
+				res.Oracle = append(res.Oracle, "C19:panic\tthe registered "+d.name+" decoder panicked")
+			}
+			if (cls == "ok") != (len(b.layers) == 1) {
+				res.Oracle = append(res.Oracle, fmt.Sprintf("C01:error-discipline\tdecoder class %s but %d layers added", cls, len(b.layers)))
+			}
+			var extra []func()
+			if d.extra != nil {
+				extra = d.extra(l)
+			}
+			if lnRender(l, extra...) != "ok" {
+				res.Oracle = append(res.Oracle, "C01:render-panic\trenderer/accessor panicked after decoder class "+cls)
+			}
+			if cls == "err" {
+				res.Tags = append(res.Tags, "decode-error")
+			}
+			res.Tags = append(res.Tags, "registered-decoder")
+		default:
+			panic(d.id + ": op " + op + " mixed with decf")
+		}
+	}
+	return
 }
